@@ -329,6 +329,41 @@ Proof.
   rewrite Hv. cbn [obind]. repeat split; reflexivity.
 Qed.
 
+(* cICP: colour primaries, transfer function, matrix coefficients (must be 0), full-range flag (0/1) *)
+Lemma codec_cicp s cp tf fr : (fr = 0 \/ fr = 1) -> before_plte_and_idat s = true -> anc_has KCicp (the_info s) = false ->
+  c_raw s = [cp; tf; 0; fr] ->
+  parse_cicp s = (upd_info s (anc_set KCicp [cp; tf; 0; fr]), Ok ENothing).
+Proof.
+  intros Hfr Hb Ha Hr. unfold parse_cicp. rewrite Hb, Ha, Hr. cbn [negb andb]. destruct Hfr as [-> | ->]; reflexivity.
+Qed.
+
+(* mDCV: the chunk stores red, green, blue, white (x then y, 16 bits, in units of 0.00002), then max and min luminance (32 bits);
+   the decoder reports white, red, green, blue in units of 0.00001 (each value doubled), then the two luminances *)
+Lemma to_be16_be16 v : 0 <= v < 65536 -> exists a b, to_be16 v = [a; b] /\ be16 a b = v.
+Proof. intro H. exists ((v / 256) mod 256), (v mod 256). split; [reflexivity|]. unfold be16. Z.div_mod_to_equations. lia. Qed.
+Lemma to_be32_be32 v : 0 <= v < 4294967296 -> exists a b c d, to_be32 v = [a; b; c; d] /\ be32 a b c d = v.
+Proof.
+  intro H. exists ((v / 16777216) mod 256), ((v / 65536) mod 256), ((v / 256) mod 256), (v mod 256). split; [reflexivity|].
+  unfold be32. Z.div_mod_to_equations. lia.
+Qed.
+
+Lemma codec_mdcv s rx ry gx gy bx by_ wx wy mx mn :
+  0 <= rx < 65536 -> 0 <= ry < 65536 -> 0 <= gx < 65536 -> 0 <= gy < 65536 -> 0 <= bx < 65536 -> 0 <= by_ < 65536 ->
+  0 <= wx < 65536 -> 0 <= wy < 65536 -> u32 mx -> u32 mn ->
+  before_plte_and_idat s = true -> anc_has KMdcv (the_info s) = false ->
+  c_raw s = to_be16 rx ++ to_be16 ry ++ to_be16 gx ++ to_be16 gy ++ to_be16 bx ++ to_be16 by_ ++ to_be16 wx ++ to_be16 wy ++ to_be32 mx ++ to_be32 mn ->
+  parse_mdcv s = (upd_info s (anc_set KMdcv [wx * 2; wy * 2; rx * 2; ry * 2; gx * 2; gy * 2; bx * 2; by_ * 2; mx; mn]), Ok ENothing).
+Proof.
+  intros H1 H2 H3 H4 H5 H6 H7 H8 H9 H10 Hb Ha Hr. unfold u32 in *.
+  destruct (to_be16_be16 rx H1) as (a1 & b1 & E1 & F1). destruct (to_be16_be16 ry H2) as (a2 & b2 & E2 & F2).
+  destruct (to_be16_be16 gx H3) as (a3 & b3 & E3 & F3). destruct (to_be16_be16 gy H4) as (a4 & b4 & E4 & F4).
+  destruct (to_be16_be16 bx H5) as (a5 & b5 & E5 & F5). destruct (to_be16_be16 by_ H6) as (a6 & b6 & E6 & F6).
+  destruct (to_be16_be16 wx H7) as (a7 & b7 & E7 & F7). destruct (to_be16_be16 wy H8) as (a8 & b8 & E8 & F8).
+  destruct (to_be32_be32 mx H9) as (x0 & x1 & x2 & x3 & E9 & F9). destruct (to_be32_be32 mn H10) as (n0 & n1 & n2 & n3 & E10 & F10).
+  unfold parse_mdcv. rewrite Hb, Ha, Hr, E1, E2, E3, E4, E5, E6, E7, E8, E9, E10. cbn [app negb andb].
+  rewrite F1, F2, F3, F4, F5, F6, F7, F8, F9, F10. reflexivity.
+Qed.
+
 (* first occurrence wins for the kinds documented so: a later instance changes nothing and raises nothing *)
 Lemma first_wins s :
   (anc_has KCicp (the_info s) = true -> parse_cicp s = (s, Ok ENothing)) /\
